@@ -262,3 +262,236 @@ package bpmn
 //@   ensures [lock-released-on-shutdown] held(mu(tracker.lock)) == 0
 //@   loop 1 for
 //@     invariant (locked ==> held(mu(tracker.lock)) == 2) && (!locked ==> held(mu(tracker.lock)) == 0)
+
+// ---------------------------------------------------------------------------
+// activity.go: results of an answered task (C08): exactly the declared names that the answer carries
+
+//@ spec func resDeclared(element schema.BaseElementInterface) bool =
+//@   second(element.ExtensionElements()) && element.ExtensionElements().ResultsField != nil
+//@ spec func resFields(element schema.BaseElementInterface) []*schema.Item =
+//@   element.ExtensionElements().ResultsField.Field
+
+//@ func ApplyTaskResult
+//@   prop C08 C16
+//@   modifies fresh mapof(map[string]data.IItem)
+//@   ensures [fresh-output] result != nil && fresh(result)
+//@   ensures [no-declaration-no-output] !resDeclared(element) ==> forall k string :: !has(result, k)
+//@   ensures [only-declared-and-answered] resDeclared(element) ==>
+//@             forall k string :: has(result, k) ==> has(results, k) &&
+//@               exists a int :: off(resFields(element)) <= a && a < off(resFields(element)) + len(resFields(element)) &&
+//@                 at(resFields(element), a).Name == k
+//@   ensures [every-declared-and-answered] resDeclared(element) ==>
+//@             forall a int :: off(resFields(element)) <= a && a < off(resFields(element)) + len(resFields(element)) &&
+//@               has(results, at(resFields(element), a).Name) ==>
+//@                 has(result, at(resFields(element), a).Name) && result[at(resFields(element), a).Name] != nil
+//@   loop 1 range extension.ResultsField.Field
+//@     invariant outputs != nil && fresh(outputs)
+//@     invariant forall k string :: has(outputs, k) ==> has(results, k) &&
+//@               exists a int :: off(resFields(element)) <= a && a < off(resFields(element)) + rk1 &&
+//@                 at(resFields(element), a).Name == k
+//@     invariant forall a int :: off(resFields(element)) <= a && a < off(resFields(element)) + rk1 &&
+//@               has(results, at(resFields(element), a).Name) ==>
+//@                 has(outputs, at(resFields(element), a).Name) && outputs[at(resFields(element), a).Name] != nil
+//@     invariant preserved("mapof(map[string]data.IItem)")
+
+//@ spec func outFields(element schema.BaseElementInterface) []schema.ExtensionAssociation =
+//@   element.ExtensionElements().DataOutput
+
+//@ func ApplyTaskDataOutput
+//@   prop C08 C16
+//@   modifies fresh mapof(map[string]data.IItem)
+//@   ensures [fresh-output] result != nil && fresh(result)
+//@   ensures [no-extension-no-output] !second(element.ExtensionElements()) ==> forall k string :: !has(result, k)
+//@   ensures [only-declared-and-answered] second(element.ExtensionElements()) ==>
+//@             forall k string :: has(result, k) ==> has(dataOutputs, k) &&
+//@               exists a int :: off(outFields(element)) <= a && a < off(outFields(element)) + len(outFields(element)) &&
+//@                 at(outFields(element), a).Name == k
+//@   ensures [every-declared-and-answered] second(element.ExtensionElements()) ==>
+//@             forall a int :: off(outFields(element)) <= a && a < off(outFields(element)) + len(outFields(element)) &&
+//@               has(dataOutputs, at(outFields(element), a).Name) ==>
+//@                 has(result, at(outFields(element), a).Name) && result[at(outFields(element), a).Name] != nil
+//@   loop 1 range extension.DataOutput
+//@     invariant outputs != nil && fresh(outputs)
+//@     invariant forall k string :: has(outputs, k) ==> has(dataOutputs, k) &&
+//@               exists a int :: off(outFields(element)) <= a && a < off(outFields(element)) + rk1 &&
+//@                 at(outFields(element), a).Name == k
+//@     invariant forall a int :: off(outFields(element)) <= a && a < off(outFields(element)) + rk1 &&
+//@               has(dataOutputs, at(outFields(element), a).Name) ==>
+//@                 has(outputs, at(outFields(element), a).Name) && outputs[at(outFields(element), a).Name] != nil
+//@     invariant preserved("mapof(map[string]data.IItem)")
+
+// ---------------------------------------------------------------------------
+// activity.go: task traces (C08): one effective answer per request
+
+//@ func newDoOption
+//@   prop C08
+//@   requires forall k int :: 0 <= k && k < len(opts) ==> opts[k] != nil
+//@   modifies nothing
+//@   flag emits opaque
+//@   ensures result != nil && fresh(result)
+//@   loop 1 range opts
+//@     invariant forall p int :: old(evlen) <= p && p < evlen ==> isOpaque(ev(p))
+//@     invariant preserved("DoResponse.Context") && preserved("DoResponse.DataObjects") && preserved("DoResponse.Results") && preserved("DoResponse.Err") && preserved("DoResponse.HandlerCh")
+
+//@ func newTaskTrace
+//@   prop C08
+//@   modifies nothing
+//@   flag emits none
+//@   ensures result != nil && fresh(result)
+//@   ensures result.forward != nil && result.response != nil && result.done != nil
+//@   ensures result.forward != result.response && fresh(result.forward) && fresh(result.response) && fresh(result.done)
+//@   ensures chancap(result.forward) == 1 && chancap(result.response) == 1 && chancap(result.done) == 1
+//@   ensures !closed(result.done) && !closed(result.forward) && !closed(result.response)
+
+//@ func newTaskTraceBuilder
+//@   prop C08
+//@   modifies nothing
+//@   flag emits none
+//@   ensures result != nil && fresh(result) && result.t != nil && fresh(result.t)
+//@   ensures result.t.forward != nil && result.t.response != nil && result.t.done != nil && !closed(result.t.done)
+
+//@ func (*taskTraceBuilder).Context
+//@   prop C08
+//@   flag emits none
+//@   modifies taskTrace.ctx
+//@   ensures result == b && b.t == old(b.t)
+//@ func (*taskTraceBuilder).Timeout
+//@   prop C08
+//@   flag emits none
+//@   modifies taskTrace.timeout
+//@   ensures result == b && b.t == old(b.t)
+//@ func (*taskTraceBuilder).Activity
+//@   prop C08
+//@   flag emits none
+//@   modifies taskTrace.activity
+//@   ensures result == b && b.t == old(b.t)
+//@ func (*taskTraceBuilder).Headers
+//@   prop C08
+//@   flag emits none
+//@   modifies taskTrace.headers
+//@   ensures result == b && b.t == old(b.t)
+//@ func (*taskTraceBuilder).Properties
+//@   prop C08
+//@   flag emits none
+//@   modifies taskTrace.properties
+//@   ensures result == b && b.t == old(b.t)
+//@ func (*taskTraceBuilder).DataObjects
+//@   prop C08
+//@   flag emits none
+//@   modifies taskTrace.dataObjects
+//@   ensures result == b && b.t == old(b.t)
+
+//@ func (*taskTraceBuilder).Build
+//@   prop C08
+//@   modifies nothing
+//@   emits Spawn(code("(*taskTrace).process"), b.t)
+//@   ensures result == b.t
+
+//@ func (*taskTrace).out
+//@   prop C08
+//@   modifies nothing
+//@   flag emits none
+//@   ensures result == t.response
+
+// Do: a call either observes that the request is already decided (done closed or signalled) and does nothing,
+// or forwards exactly one answer; it never sends twice.
+//@ func (*taskTrace).Do
+//@   prop C08
+//@   requires forall k int :: 0 <= k && k < len(options) ==> options[k] != nil
+//@   ensures [decided-request-is-left-alone-else-one-answer-forwarded]
+//@           (evlen == old(evlen) + 1 && isRecv(ev(old(evlen))) && evch(ev(old(evlen))) == t.done) ||
+//@           (evlen > old(evlen) && isSend(ev(evlen - 1)) && evch(ev(evlen - 1)) == t.forward &&
+//@             forall p int :: old(evlen) <= p && p < evlen - 1 ==> isOpaque(ev(p)))
+//@   ensures [at-most-one-forward] forall p int, q int :: old(evlen) <= p && p < q && q < evlen && isSend(ev(p)) ==> !isSend(ev(q))
+
+// process: relays at most one answer to the waiting task goroutine and closes done at most once.
+//@ func (*taskTrace).process
+//@   prop C08 C07
+//@   requires t.done != nil
+//@   ensures [at-most-one-response] forall p int, q int :: old(evlen) <= p && p < q && q < evlen &&
+//@             isSend(ev(p)) && evch(ev(p)) == t.response ==> !(isSend(ev(q)) && evch(ev(q)) == t.response)
+//@   ensures [forwarded-answer-unchanged] forall p int :: old(evlen) + 1 <= p && p < evlen &&
+//@             isSend(ev(p)) && evch(ev(p)) == t.response && isRecv(ev(p - 1)) && evch(ev(p - 1)) == t.forward ==>
+//@             evval(ev(p)) == evval(ev(p - 1))
+//@   ensures [done-closed-at-most-once] forall p int, q int :: old(evlen) <= p && p < q && q < evlen &&
+//@             isClose(ev(p)) ==> !isClose(ev(q))
+
+//@ func DoWithErr
+//@   prop C08
+//@   modifies nothing
+//@   flag emits none
+//@   ensures result != nil
+//@ func DoWithErrHandle
+//@   prop C08
+//@   modifies nothing
+//@   flag emits none
+//@   ensures result != nil
+//@ func DoWithResults
+//@   prop C08
+//@   modifies nothing
+//@   flag emits none
+//@   ensures result != nil
+//@ func DoWithObjects
+//@   prop C08
+//@   modifies nothing
+//@   flag emits none
+//@   ensures result != nil
+
+// ---------------------------------------------------------------------------
+// task_generic.go
+
+// The goroutine serving one task request: one TaskTrace, then either the context ends (no answer is
+// relayed) or exactly one flowAction carrying the answer and all outgoing flows is sent, last.
+//@ func (*genericTask).run$1
+//@   prop C01 C08 C10
+//@   requires task.wiring != nil
+//@   ensures [at-most-one-reply] forall p int, q int :: old(evlen) <= p && p < q && q < evlen &&
+//@             isSend(ev(p)) && evch(ev(p)) == m.response ==> !(isSend(ev(q)) && evch(ev(q)) == m.response)
+//@   ensures [reply-is-last] forall p int :: old(evlen) <= p && p < evlen && isSend(ev(p)) && evch(ev(p)) == m.response ==> p == evlen - 1
+//@   ensures [reply-carries-answer-and-all-outgoing] forall p int :: old(evlen) <= p && p < evlen && isSend(ev(p)) && evch(ev(p)) == m.response ==>
+//@             is(evval(ev(p)), flowAction) && evval(ev(p)).(flowAction).response != nil &&
+//@             len(evval(ev(p)).(flowAction).sequenceFlows) == len(task.wiring.outgoing) &&
+//@             off(evval(ev(p)).(flowAction).sequenceFlows) == 0 && len(evval(ev(p)).(flowAction).unconditionalFlows) == 0
+//@   ensures [reply-flows-are-the-outgoing] forall p int, a int :: old(evlen) <= p && p < evlen && isSend(ev(p)) && evch(ev(p)) == m.response &&
+//@             0 <= a && a < len(task.wiring.outgoing) ==>
+//@             at(evval(ev(p)).(flowAction).sequenceFlows, a) == elemptr(task.wiring.outgoing, a)
+//@   ensures [task-trace-precedes-reply] forall p int :: old(evlen) <= p && p < evlen && isSend(ev(p)) && evch(ev(p)) == m.response ==>
+//@             exists q int :: old(evlen) <= q && q < p && isTrace(ev(q)) && evch(ev(q)) == ref(task.wiring.tracer) && is(evval(ev(q)), *taskTrace)
+//@   ensures [results-only-declared] forall p int, k string :: old(evlen) <= p && p < evlen && isSend(ev(p)) && evch(ev(p)) == m.response &&
+//@             has(evval(ev(p)).(flowAction).response.variables, k) ==>
+//@               resDeclared(task.element) &&
+//@               exists a int :: off(resFields(task.element)) <= a && a < off(resFields(task.element)) + len(resFields(task.element)) &&
+//@                 at(resFields(task.element), a).Name == k
+
+//@ func (*genericTask).NextAction
+//@   prop C01 C08
+//@   requires task.wiring != nil
+//@   ensures [fresh-buffered-reply-channel] result != nil && fresh(result) && chancap(result) == 1
+//@   ensures [one-request-sent-last] isSend(ev(evlen - 1)) && evch(ev(evlen - 1)) == task.mch &&
+//@             is(evval(ev(evlen - 1)), nextTaskActionMessage) && evval(ev(evlen - 1)).(nextTaskActionMessage).response == result
+//@   ensures [run-spawned-at-most-once] forall a int, b int :: old(evlen) <= a && a < b && b < evlen && isSpawn(ev(a)) ==> !isSpawn(ev(b))
+//@   ensures [run-spawned-only-when-idle] (exists a int :: old(evlen) <= a && a < evlen && isSpawn(ev(a))) ==> old(task.active) == 0
+
+//@ func (*genericTask).Cancel
+//@   prop C10
+//@   ensures result != nil && fresh(result)
+//@   ensures evlen == old(evlen) + 1 && isSend(ev(old(evlen))) && evch(ev(old(evlen))) == task.mch && is(evval(ev(old(evlen))), cancelMessage) &&
+//@           evval(ev(old(evlen))).(cancelMessage).response == result
+
+//@ func (*genericTask).run
+//@   prop C01 C08 C10 C07
+//@   requires task.wiring != nil
+//@   ensures [exit-by-cancel-or-context] isTrace(ev(evlen - 1)) && is(evval(ev(evlen - 1)), CancellationFlowNodeTrace) ||
+//@             (isSend(ev(evlen - 1)) && is(evval(ev(evlen - 1)), bool) && evval(ev(evlen - 1)).(bool) && task.active == 0)
+//@   loop 1 for
+//@     invariant task.wiring != nil && task.wiring == old(task.wiring) && task.mch == old(task.mch)
+//@     iter ensures [request-spawns-one-worker]
+//@       isRecv(ev(old(evlen))) && evch(ev(old(evlen))) == task.mch && is(evval(ev(old(evlen))), nextTaskActionMessage) ==>
+//@         evlen == old(evlen) + 2 && isSpawn(ev(old(evlen) + 1)) && evch(ev(old(evlen) + 1)) == code("(*genericTask).run$1")
+//@     iter ensures [refused-cancel-answers-false]
+//@       isRecv(ev(old(evlen))) && evch(ev(old(evlen))) == task.mch && is(evval(ev(old(evlen))), cancelMessage) ==>
+//@         evlen == old(evlen) + 3 && isTrace(ev(old(evlen) + 1)) && isSend(ev(old(evlen) + 2)) &&
+//@         evch(ev(old(evlen) + 2)) == evval(ev(old(evlen))).(cancelMessage).response &&
+//@         !evval(ev(old(evlen) + 2)).(bool) && task.active > 1
+//@     iter ensures [interrupt-cancels-a-pending-request @C10]
+//@       !(isRecv(ev(old(evlen))) && evch(ev(old(evlen))) == task.mch && is(evval(ev(old(evlen))), cancelMessage))
